@@ -90,8 +90,42 @@ class ResultFlow(object):
                 if pl is None or pl["p"] or pl["l"] != 1:
                     ok = False
                     break
+            if not ok:
+                ok = self._match_wrapper(tb)
         cache[path] = ok
         return ok
+
+    def _match_wrapper(self, tb):
+        """The same decoration written as `match self { Ok(v) => Ok(v), Err(e) => Err(E2 { .. e }) }`: one switch on the
+        first parameter's discriminant; every `Ok(..)` the function returns is built behind its Ok edge, every `Err(..)`
+        behind its Err edge, and nothing else is returned."""
+        from . import cfgutil
+        if len(tb.blocks) > 16:
+            return False
+        sw = None
+        for bb in tb.normal_blocks():
+            c = cfgutil.switch_condition(tb, bb)
+            if c and c[0] == "discr" and not c[1]["p"] and c[1]["l"] == 1:
+                if sw is not None:
+                    return False
+                sw = bb
+        if sw is None:
+            return False
+        e = cfgutil.switch_edges(tb, sw)
+        ok_t = e.get(0, e["otherwise"] if 1 in e else None)
+        err_t = e.get(1, e["otherwise"] if 0 in e else None)
+        if ok_t is None or err_t is None or ok_t == err_t:
+            return False
+        rets = tb.assignments().get(0, [])
+        if not rets:
+            return False
+        for (bb, j, rv) in rets:
+            if j == "term" or rv["k"] != "agg" or rv.get("def") != RESULT_DEF:
+                return False
+            edge = (sw, ok_t) if rv.get("vn") == "Ok" else (sw, err_t)
+            if not cfgutil.edge_dominates(tb, edge, bb):
+                return False
+        return True
 
     def _literal_polarity(self, local, depth=0):
         """'ok' / 'err' if the local is a Result built right here as `Ok(..)` / `Err(..)` (through moves)."""
@@ -383,6 +417,27 @@ class MustFlow(object):
     def summarize(self, body):
         if _fk(body) in self.summ_ret or _fk(body) in self._in_progress:
             return
+        if not getattr(body, "is_flat", False):
+            # a state machine written as a loop over an enum of stages is analysed on its threaded form (the chain of
+            # arms it really executes); the facts are handed back block by block
+            from . import flat as flatmod
+            T = flatmod.thread_view(self.prog, body)
+            if T is not None:
+                self._in_progress.add(_fk(body))
+                self.summarize(T)
+                INT = self.rel_in[_fk(T)]
+                IN = {}
+                for x, fact in INT.items():
+                    if T.blocks[x].get("cleanup"):
+                        continue
+                    ob = T.origin[x][1]
+                    IN[ob] = meet(IN.get(ob, ALL), fact)
+                self.rel_in[_fk(body)] = IN
+                self.edge_ops[_fk(body)] = {}
+                self.summ_ret[_fk(body)] = self.summ_ret[_fk(T)]
+                self.summ_ok[_fk(body)] = self.summ_ok[_fk(T)]
+                self._in_progress.discard(_fk(body))
+                return
         self._in_progress.add(_fk(body))
         rf = self.rf(body)
         edge_ops = collections.defaultdict(list)
